@@ -1,5 +1,6 @@
 //! Reference models used as oracles by the deterministic-simulation harness.
 //! Nothing in this crate depends on (or is derived from) the code under test.
+pub mod ldbytes;
 pub mod mem;
 pub mod screen;
 pub mod tape;
